@@ -443,9 +443,11 @@ type Features struct {
 	// SingleRowGroup: some group other than the first has exactly one pre-fill row and buckets after it
 	SingleRowGroup bool `json:"single_row_group"`
 	// SelectorTie: single min()/max() without time(): in some group the extreme value occurs at two timestamps
-	SelectorTie bool   `json:"selector_tie"`
-	HasTie      bool   `json:"has_tie"` // plain selection: two rows of one group share a timestamp
-	Layout      string `json:"layout"`  // inorder | ooo (how the data set was written)
+	SelectorTie bool `json:"selector_tie"`
+	// MultiSeriesGroup: some group of the query is fed by two or more series
+	MultiSeriesGroup bool   `json:"multi_series_group"`
+	HasTie           bool   `json:"has_tie"` // plain selection: two rows of one group share a timestamp
+	Layout           string `json:"layout"`  // inorder | ooo (how the data set was written)
 }
 
 func features(ds *Dataset, q *Query) Features {
@@ -457,6 +459,13 @@ func features(ds *Dataset, q *Query) Features {
 		f.FilledRows += len(s.Rows)
 	}
 	f.Groups = len(a)
+	for i := range ds.Series {
+		for j := i + 1; j < len(ds.Series); j++ {
+			if cmpKey(keyOf(&ds.Series[i], q.Group), keyOf(&ds.Series[j], q.Group)) == 0 {
+				f.MultiSeriesGroup = true
+			}
+		}
+	}
 	f.Layout = "ooo"
 	if ds.InOrder {
 		f.Layout = "inorder"
